@@ -15,13 +15,13 @@ EXPLANATION = (
     "formatUnformattableEvent (and, for the legacy API, textFromEventDict / _safeFormat) through every repository callee "
     "(flatFormat, formatWithCall, formatTime, _formatSystem, _formatTraceback): values read out of the event, exceptions "
     "bound by handlers and results of calls on them are arbitrary objects, so each attribute read, call, str/repr/format, "
-    "%-formatting, arithmetic, comparison, iteration, join, unguarded event[key] or call-out receiving such a value is a "
+    "%-formatting, arithmetic, comparison, truth test, iteration, join, unguarded event[key] or call-out receiving such a value is a "
     "may-raise site; each site must lie (in every calling context) inside the body of a try whose handler catches "
     "BaseException without re-raising (a handler that stops only Exception is reported separately), explicit raises "
     "likewise; and every return of the entry functions must be text. Construct keys are semantic: a site is attributed to the "
     "function it would be inlined into (single-caller helpers count as inlined) and its text names event-derived operands by provenance "
     "(<event['log_time']>, <caught exception>) with other locals alpha-renamed, so helper extraction / renaming keeps known findings known. Not decided: behaviour of library code that receives "
-    "no event value (strftime, Failure()), truth-testing of event values, the observers that write the text "
+    "no event value (strftime, Failure()), the observers that write the text "
     "(FileLogObserver.emit / formatTime of python/log.py)."
 )
 RULE_KINDS = {
@@ -30,8 +30,8 @@ RULE_KINDS = {
 }
 ASSUMPTIONS = [
     "the event is a real dict: .get/.items/`in` and event[k] under a dominating `k in event` test are total",
-    "bool(), `is`, isinstance, cast, reflect.safe_repr/safe_str, Failure() and the PotentialCallWrapper/CallMapping "
-    "constructors are total on arbitrary objects",
+    "`is`, isinstance, cast, reflect.safe_repr/safe_str, Failure() and the PotentialCallWrapper/CallMapping constructors are total on "
+    "arbitrary objects; truth tests (`if x`, `x and`, `not x`, conditional expressions, `while x`) of event values are NOT: they call __bool__/__len__",
     "legacy events carry the documented required keys `message` (a tuple) and `isError`",
     "the bare re-raise of KeyboardInterrupt in _safeFormat is deliberate and outside the property",
 ]
@@ -136,6 +136,11 @@ MUTANTS = [
            expect_rule="escape/unprotected"),
     Mutant("revert-F55h-legacy-traceback-handler", LOG, _LEGACY_FIXED, _LEGACY_BEFORE, expect_rule="escape/"),
     Mutant("revert-F55i-safeFormat-text-check", LOG, _SAFEFORMAT_FIXED, "        text = fmtString % fmtDict\n", expect_rule="returns-text"),
+    Mutant("failure-fetched-then-truth-tested", FMT, "    if includeTraceback and \"log_failure\" in event:\n        f = event[\"log_failure\"]\n",
+           "    f = event.get(\"log_failure\")\n    if includeTraceback and f:\n", expect_rule="escape/unprotected"),
+    Mutant("system-presence-by-truth", FMT, "    try:\n        system = cast(Optional[str], event.get(\"log_system\", None))\n        if system is None:\n",
+           "    system = cast(Optional[str], event.get(\"log_system\", None))\n    hasSystem = not not system\n    try:\n        if not hasSystem:\n", expect_rule="escape/unprotected"),
+    Mutant("timestamp-only-for-truthy-time", FMT, "    if includeTimestamp:\n        try:\n", "    if includeTimestamp and event.get(\"log_time\"):\n        try:\n", expect_rule="escape/unprotected"),
     Mutant("system-str-before-the-guard", FMT, "    try:\n        system = cast(Optional[str], event.get(\"log_system\", None))\n        if system is None:\n",
            "    system = cast(Optional[str], event.get(\"log_system\", None))\n    if system is not None:\n        return str(system)\n    try:\n        if system is None:\n",
            expect_rule="escape/unprotected"),
@@ -166,6 +171,10 @@ MUTANTS = [
     Mutant("legacy-message-str", LOG, "        text = \" \".join(map(reflect.safe_str, edm))", "        text = \" \".join(map(str, edm))", expect_rule="escape/unprotected"),
 ]
 SILENT = [
+    Silent("failure-fetched-then-identity-tested", FMT, "    if includeTraceback and \"log_failure\" in event:\n        f = event[\"log_failure\"]\n",
+           "    f = event.get(\"log_failure\", _formatEvent)\n    if includeTraceback and f is not _formatEvent:\n"),
+    Silent("system-truth-test-inside-the-guard", FMT, "        if system is None:\n            level = cast(Optional[NamedConstant], event.get(\"log_level\", None))\n",
+           "        if system is None or (isinstance(system, str) and not system and False):\n            level = cast(Optional[NamedConstant], event.get(\"log_level\", None))\n"),
     Silent("timestamp-in-private-helper-taking-the-formatter", FMT, _TS_FIXED, "        timeStamp = _stamp(event, formatTime)\n",
            more=[(FMT, "def eventAsText(\n", "def _stamp(event, formatter):\n    try:\n        return formatter(cast(float, event.get(\"log_time\", None))) + \" \"\n    except BaseException:\n        return \"UNFORMATTABLE \"\n\n\ndef eventAsText(\n")]),
     Silent("traceback-note-uses-safe-repr", FMT, "(UNABLE TO OBTAIN TRACEBACK FROM EVENT):\" + safe_str(e)", "(UNABLE TO OBTAIN TRACEBACK FROM EVENT):\" + safe_str(e) + \" in \" + safe_repr(failure)"),
